@@ -3,16 +3,12 @@
     [exact] of a lemma proved in Match/MatchProofs.v, with [Print Assumptions]
     beneath.  Non-vacuity examples: MatchProofs.ex_*.
 
-    The model follows the code as it is now; three clauses are false of it
-    (C06_1..3, see docs/props/C06.md).  For those the file holds the
-    refutation on the current model, what is proved of the current model
-    ([_partial]) and the full clause over the model with the candidate patch
-    switched in ([_patched]: the [_gen] functions with the flag [true]).
-    The refutations are stated over the [_gen] functions with the flags
-    [false] -- definitionally [update_notification] / [add_subscription] as
-    long as MatchModel.fixed_C06_n = false -- so that switching a flag breaks
-    nothing here (the [_refuted] block of that defect is then deleted and the
-    [_patched] statement becomes the statement about the current model). *)
+    The model follows the code as it is now (repository HEAD 434b003, which
+    contains the three fixes this check led to: 0aa714c, 601ff89, 434b003).
+    For each of the three clauses that were false before, the file holds the
+    full clause about the current model and, as a regression witness, the
+    refutation over the model of the code before the fix ([_unpatched_refuted]:
+    the [_gen] functions with the flag [false]). *)
 From Gnmi Require Import Base.Prelude CTree.CTreeModel Path.PathModel
   Match.MatchModel Match.MatchCheck Match.MatchProofs.
 
@@ -54,80 +50,48 @@ Theorem C06_query_relation_contained :
 Proof. exact qmatch_compat. Qed.
 Print Assumptions C06_query_relation_contained.
 
-(** Full clause (every entry [e] of the list, with or without a path):
-
-      forall b c pre ents b' qs e fp t' ip,
-        wf b -> add_subscription b c pre ents = Some (b', qs) -> In e ents ->
-        complete_path pre (gp_of_opt e) = Ok fp -> gp_target pre <> "" ->
-        (gp_target pre = t' \/ gp_target pre = "*" \/ t' = "*") ->
-        qmatch fp ip = true -> In c (visit b' (t' :: ip)).
-
-    False of the code as it is (DEFECT C06_2): *)
-Theorem C06_query_implies_stream_refuted :
-  exists c pre ents b' qs e fp t' ip,
-    add_subscription_gen false false empty_branch c pre ents = Some (b', qs) /\
-    In e ents /\ complete_path pre (gp_of_opt e) = Ok fp /\
-    gp_target pre = t' /\ qmatch fp ip = true /\
-    ~ In c (visit b' (t' :: ip)).
-Proof. exact query_implies_stream_refuted. Qed.
-Print Assumptions C06_query_implies_stream_refuted.
-
-(** Proved of the code as it is: for every entry that has a path, on any
-    well-formed trie, whatever the other entries. *)
-Theorem C06_query_implies_stream_partial :
-  forall b c pre ents b' qs p fp t' ip,
+(** Every entry [e] of a subscription list, with or without a path, on any
+    well-formed trie: when CompletePath accepts it ([fp] is what the snapshot
+    queries) and the targets agree (equal, or [*] on either side), every index
+    path [ip] the query selects is offered to the client when it is updated. *)
+Theorem C06_query_implies_stream :
+  forall b c pre ents b' qs e fp t' ip,
     wf b ->
     add_subscription b c pre ents = Some (b', qs) ->
-    In (Some p) ents ->
-    complete_path pre p = Ok fp ->
-    gp_target pre <> "" ->
-    (gp_target pre = t' \/ gp_target pre = "*" \/ t' = "*") ->
-    qmatch fp ip = true ->
-    In c (visit b' (t' :: ip)).
-Proof. exact query_implies_stream_partial. Qed.
-Print Assumptions C06_query_implies_stream_partial.
-
-(** The full clause over the model with fixes/C06_2 switched in (either
-    setting of the C06_3 flag). *)
-Theorem C06_query_implies_stream_patched :
-  forall f3 b c pre ents b' qs e fp t' ip,
-    wf b ->
-    add_subscription_gen true f3 b c pre ents = Some (b', qs) ->
     In e ents ->
     complete_path pre (gp_of_opt e) = Ok fp ->
     gp_target pre <> "" ->
     (gp_target pre = t' \/ gp_target pre = "*" \/ t' = "*") ->
     qmatch fp ip = true ->
     In c (visit b' (t' :: ip)).
-Proof. exact query_implies_stream_patched. Qed.
-Print Assumptions C06_query_implies_stream_patched.
+Proof. exact (query_implies_stream_patched fixed_C06_3). Qed.
+Print Assumptions C06_query_implies_stream.
+
+(** Before 601ff89 (entries without a path were not registered) the clause was false: *)
+Theorem C06_query_implies_stream_unpatched_refuted :
+  exists c pre ents b' qs e fp t' ip,
+    add_subscription_gen false false empty_branch c pre ents = Some (b', qs) /\
+    In e ents /\ complete_path pre (gp_of_opt e) = Ok fp /\
+    gp_target pre = t' /\ qmatch fp ip = true /\
+    ~ In c (visit b' (t' :: ip)).
+Proof. exact query_implies_stream_refuted. Qed.
+Print Assumptions C06_query_implies_stream_unpatched_refuted.
 
 (** ** at most once per notification *)
 
-(** Full clause:  forall b prefix paths c,
-      count_occ Nat.eq_dec (update_notification b prefix paths) c <= 1.
-    False of the code as it is (DEFECT C06_1), on a reachable trie: *)
-Theorem C06_at_most_once_refuted :
+(** Any trie, any prefix, any number of updates/deletes: each client at most once. *)
+Theorem C06_at_most_once :
+  forall (b : branch) (prefix : path) (paths : list path) (c : cid),
+    (count_occ Nat.eq_dec (update_notification b prefix paths) c <= 1)%nat.
+Proof. exact at_most_once_patched. Qed.
+Print Assumptions C06_at_most_once.
+
+(** Before 0aa714c (set allocated only for two or more updates/deletes) it was false: *)
+Theorem C06_at_most_once_unpatched_refuted :
   exists h prefix paths c,
     (2 <= count_occ Nat.eq_dec (update_notification_gen false (run_hist h) prefix paths) c)%nat.
 Proof. exact at_most_once_refuted. Qed.
-Print Assumptions C06_at_most_once_refuted.
-
-(** Proved of the code as it is: notifications with two or more updates/deletes,
-    on any trie. *)
-Theorem C06_at_most_once_partial :
-  forall (b : branch) (prefix : path) (paths : list path) (c : cid),
-    (2 <= List.length paths)%nat ->
-    (count_occ Nat.eq_dec (update_notification b prefix paths) c <= 1)%nat.
-Proof. exact at_most_once_partial. Qed.
-Print Assumptions C06_at_most_once_partial.
-
-(** The full clause over the model with fixes/C06_1 switched in. *)
-Theorem C06_at_most_once_patched :
-  forall (b : branch) (prefix : path) (paths : list path) (c : cid),
-    (count_occ Nat.eq_dec (update_notification_gen true b prefix paths) c <= 1)%nat.
-Proof. exact at_most_once_patched. Qed.
-Print Assumptions C06_at_most_once_patched.
+Print Assumptions C06_at_most_once_unpatched_refuted.
 
 (** ** never after removal; other subscribers unaffected *)
 
@@ -161,46 +125,29 @@ Theorem C06_no_leak :
 Proof. exact no_leak. Qed.
 Print Assumptions C06_no_leak.
 
-(** Subscribe-level removal.  Full clause: after addSubscription followed by
-    its removal closure the registrations are those from before, minus this
-    client's own pairs:
+(** Subscribe-level removal: after addSubscription followed by its removal
+    closure the registrations are those from before, minus this client's own
+    pairs -- so the client is offered nothing through the removed list, and
+    every other client is unaffected. *)
+Theorem C06_unsubscribe_clean :
+  forall b c pre ents b' qs q' c',
+    wf b ->
+    add_subscription b c pre ents = Some (b', qs) ->
+    (In c' (clients_at (remove_all qs c b') q') <->
+     In c' (clients_at b q') /\ ~ (c' = c /\ In q' (sub_queries fixed_C06_2 pre ents))).
+Proof. exact (subscription_removed_gen fixed_C06_2). Qed.
+Print Assumptions C06_unsubscribe_clean.
 
-      forall b c pre ents b' qs q' c', wf b ->
-        add_subscription b c pre ents = Some (b', qs) ->
-        (In c' (clients_at (remove_all qs c b') q') <->
-         In c' (clients_at b q') /\ ~ (c' = c /\ In q' (sub_queries fixed_C06_2 pre ents))).
-
-    False of the code as it is (DEFECT C06_3): the client is still offered
-    updates after its subscription was removed. *)
-Theorem C06_unsubscribe_refuted :
+(** Before 434b003 (captured slices shared one backing array) the client was
+    still offered updates after its subscription had been removed: *)
+Theorem C06_unsubscribe_unpatched_refuted :
   exists c pre ents b' qs p,
     add_subscription_gen false false empty_branch c pre ents = Some (b', qs) /\
     In c (match_update (remove_all qs c b') p).
 Proof. exact unsubscribe_refuted. Qed.
-Print Assumptions C06_unsubscribe_refuted.
+Print Assumptions C06_unsubscribe_unpatched_refuted.
 
-(** Proved of the code as it is: subscription lists with a single entry. *)
-Theorem C06_unsubscribe_partial :
-  forall b c pre e b' qs q' c',
-    wf b ->
-    add_subscription b c pre [e] = Some (b', qs) ->
-    (In c' (clients_at (remove_all qs c b') q') <->
-     In c' (clients_at b q') /\ ~ (c' = c /\ In q' (sub_queries fixed_C06_2 pre [e]))).
-Proof. exact unsubscribe_partial. Qed.
-Print Assumptions C06_unsubscribe_partial.
-
-(** The full clause over the model with fixes/C06_3 switched in (either
-    setting of the C06_2 flag). *)
-Theorem C06_unsubscribe_patched :
-  forall f2 b c pre ents b' qs q' c',
-    wf b ->
-    add_subscription_gen f2 true b c pre ents = Some (b', qs) ->
-    (In c' (clients_at (remove_all qs c b') q') <->
-     In c' (clients_at b q') /\ ~ (c' = c /\ In q' (sub_queries f2 pre ents))).
-Proof. exact subscription_removed_gen. Qed.
-Print Assumptions C06_unsubscribe_patched.
-
-(** Registration itself is right on the code as it is, aliasing or not: the
+(** Registration: the
     trie after addSubscription holds exactly the old registrations plus the
     client on each entry's path. *)
 Theorem C06_subscribe_registers :
